@@ -1856,3 +1856,22 @@ pub fn close_reason_early_native(_x: u8) -> u32 {
     assert!(hits == 1, "the application's close reason was put on the wire {} times: it leaked into a Handshake (or Initial) packet", hits);
     1
 }
+
+/// Native replay body for the E2 query `e2_predict_1rtt_overhead_remote_cid` (C16 / C13), on a real `Connection`
+/// whose peer uses 20-byte connection IDs while ours are 8 bytes long: the predicted overhead of a 1-RTT packet
+/// counts the peer's CID - the one short headers carry - and a maximum-size datagram fits one packet with it.
+pub fn predict_overhead_native(_x: u8) -> u32 {
+    let mut conn = mk_established(false);
+    conn.rem_cids = CidQueue::new(ConnectionId::new(&[3; 20]));
+    let tag = conn.tag_len_1rtt();
+    let o = conn.predict_1rtt_overhead(None);
+    assert!(o == 1 + 20 + 4 + tag, "overhead {} predicted for a 20-byte remote CID, a 4-byte packet number and a {}-byte tag", o, tag);
+    let o1 = conn.predict_1rtt_overhead(Some(0));
+    assert!(o1 == 1 + 20 + 1 + tag, "overhead {} predicted for a 20-byte remote CID, a 1-byte packet number and a {}-byte tag", o1, tag);
+    conn.peer_params.max_datagram_frame_size = Some(VarInt::from_u32(65535));
+    let mtu = conn.path.current_mtu() as usize;
+    let max = conn.datagrams().max_size().expect("peer supports datagrams");
+    // flags + remote CID + packet number + frame type + 2-byte length + payload + tag
+    assert!(1 + 20 + 4 + 1 + 2 + max + tag <= mtu, "a {}-byte datagram does not fit a {}-byte packet behind a 20-byte CID", max, mtu);
+    1
+}
